@@ -8,6 +8,8 @@ package v2
 
 import (
 	"fmt"
+	"sort"
+	"time"
 
 	"github.com/tendermint/tendermint/p2p"
 	sm "github.com/tendermint/tendermint/state"
@@ -69,3 +71,117 @@ func (v *VerifProcessor) Process() string { return v.handle(rProcessBlock{}) }
 func (v *VerifProcessor) State() sm.State { return v.ctx.tmState() }
 func (v *VerifProcessor) QueueLen() int   { return len(v.pc.queue) }
 func (v *VerifProcessor) Draining() bool  { return v.pc.draining }
+
+// VerifScheduler drives the real scheduler state machine (scheduler.handle). Event times are
+// given in seconds relative to the moment the wrapper was created.
+type VerifScheduler struct {
+	sc   *scheduler
+	base time.Time
+}
+
+func NewVerifScheduler(initHeight int64) *VerifScheduler {
+	now := time.Now()
+	return &VerifScheduler{sc: newScheduler(initHeight, now), base: now}
+}
+
+func (v *VerifScheduler) at(sec int64) time.Time { return v.base.Add(time.Duration(sec) * time.Second) }
+
+func (v *VerifScheduler) handle(ev Event) (out string) {
+	defer func() {
+		if r := recover(); r != nil {
+			out = "panic: " + fmt.Sprint(r)
+		}
+	}()
+	res, err := v.sc.handle(ev)
+	if err != nil {
+		return "error: " + err.Error()
+	}
+	switch e := res.(type) {
+	case noOpEvent:
+		return "noop"
+	case scPeerError:
+		return fmt.Sprintf("peer-error p=%s", e.peerID)
+	case scBlockReceived:
+		return fmt.Sprintf("block-received p=%s h=%d", e.peerID, e.block.Height)
+	case scFinishedEv:
+		return "finished"
+	case scBlockRequest:
+		return fmt.Sprintf("block-request p=%s h=%d", e.peerID, e.height)
+	case scSchedulerFail:
+		return "fail"
+	case scPeersPruned:
+		s := "pruned"
+		for _, p := range e.peers {
+			s += " " + string(p)
+		}
+		return s
+	}
+	return fmt.Sprintf("other: %v", res)
+}
+
+func (v *VerifScheduler) StatusResponse(peer p2p.ID, base, height int64) string {
+	return v.handle(bcStatusResponse{peerID: peer, base: base, height: height, time: v.at(0)})
+}
+func (v *VerifScheduler) BlockResponse(peer p2p.ID, b *types.Block, sec int64) string {
+	return v.handle(bcBlockResponse{peerID: peer, block: b, size: b.Size(), time: v.at(sec)})
+}
+func (v *VerifScheduler) NoBlockResponse(peer p2p.ID, height int64) string {
+	return v.handle(bcNoBlockResponse{peerID: peer, height: height, time: v.at(0)})
+}
+func (v *VerifScheduler) TrySchedule(sec int64) string {
+	return v.handle(rTrySchedule{time: v.at(sec)})
+}
+func (v *VerifScheduler) AddNewPeer(peer p2p.ID) string { return v.handle(bcAddNewPeer{peerID: peer}) }
+func (v *VerifScheduler) RemovePeer(peer p2p.ID) string {
+	return v.handle(bcRemovePeer{peerID: peer, reason: "verif"})
+}
+func (v *VerifScheduler) TryPrune(sec int64) string { return v.handle(rTryPrunePeer{time: v.at(sec)}) }
+func (v *VerifScheduler) BlockProcessed(height int64, peer p2p.ID) string {
+	return v.handle(pcBlockProcessed{height: height, peerID: peer})
+}
+func (v *VerifScheduler) ProcessError(height int64, p1, p2 p2p.ID) string {
+	return v.handle(pcBlockVerificationFailure{height: height, firstPeerID: p1, secondPeerID: p2})
+}
+
+// VerifSchedView is a sorted copy of the scheduler's bookkeeping.
+type VerifSchedView struct {
+	Height   int64
+	Peers    []string // id:state:base:height
+	States   []string // h:state
+	Pending  []string // h:peer
+	Received []string // h:peer
+}
+
+func (v *VerifScheduler) View() VerifSchedView {
+	sc := v.sc
+	w := VerifSchedView{Height: sc.height}
+	for id, p := range sc.peers {
+		w.Peers = append(w.Peers, fmt.Sprintf("%s:%s:%d:%d", id, p.state, p.base, p.height))
+	}
+	sort.Strings(w.Peers)
+	var hs []int64
+	for h := range sc.blockStates {
+		hs = append(hs, h)
+	}
+	sort.Slice(hs, func(i, j int) bool { return hs[i] < hs[j] })
+	for _, h := range hs {
+		w.States = append(w.States, fmt.Sprintf("%d:%s", h, sc.blockStates[h]))
+	}
+	hs = hs[:0]
+	for h := range sc.pendingBlocks {
+		hs = append(hs, h)
+	}
+	sort.Slice(hs, func(i, j int) bool { return hs[i] < hs[j] })
+	for _, h := range hs {
+		w.Pending = append(w.Pending, fmt.Sprintf("%d:%s", h, sc.pendingBlocks[h]))
+	}
+	hs = hs[:0]
+	for h := range sc.receivedBlocks {
+		hs = append(hs, h)
+	}
+	sort.Slice(hs, func(i, j int) bool { return hs[i] < hs[j] })
+	for _, h := range hs {
+		w.Received = append(w.Received, fmt.Sprintf("%d:%s", h, sc.receivedBlocks[h]))
+	}
+	return w
+}
